@@ -27,7 +27,7 @@ RULE = ("states are description objects; transitions are load operations applied
 ASSUMPTIONS = ["python json/yaml libraries", "float repr round-trips exactly through JSON and YAML"]
 EXPLANATION = "explicit exploration of operation histories on shared description objects with a deep-snapshot oracle"
 
-CVALS = [(3.0, 4.0), (-2.0, 0.5), (0.0, -7.0), (5.0, 0.0), (1e-06, 2e-05), (-4e+16, 3e-07)]   # incl. floats whose repr is d e-xx / d e+xx
+CVALS = [(3.0, 4.0), (-2.0, 0.5), (0.0, -7.0), (5.0, 0.0), (1e-06, 2e-05), (-4e+16, 3e-07), (3e-13, -4e-13), (1.2345678e-06, 2.5e-07)]   # incl. floats whose repr is d e-xx / d e+xx
 RVALS = [10, 0.25, 4700.0, 1e-05, 2e+16]
 NET_KINDS = ["resistor", "conductor", "impedance", "admittance", "linear_current_source", "current_source", "real_current_source",
              "linear_voltage_source", "voltage_source", "real_voltage_source", "short_circuit", "open_circuit"]
